@@ -1660,6 +1660,12 @@ int QSexact_solver (mpq_QSdata * p_mpq,
 				p_mpf->lp->basisid = -1;
 				p_mpf->factorok = 0;
 			}
+			if (basis)
+			{
+				/* a basis kept from the previous level that is not re-used */
+				mpf_QSfree_basis (basis);
+				basis = 0;
+			}
 			if (p_mpq->simplex_display || DEBUG >= __QS_SB_VERB)
 			{
 				QSlog("Not-using previous basis");
